@@ -14,6 +14,7 @@ mod exec;
 mod gen;
 mod minimise;
 mod model;
+mod pipelines;
 
 use common::*;
 use exec::*;
